@@ -7,7 +7,6 @@ import (
 	"fmt"
 	"io"
 	"math/big"
-	"runtime/debug"
 	"testing"
 
 	"github.com/emmansun/gmsm/sm2"
@@ -313,13 +312,16 @@ var _ sm9.KeyExchange // the interface the SM9 object satisfies
 
 // ---------------------------------------------------------------- the oracle
 
-func guard(what string, f func() error) (err error) {
-	defer func() {
-		if p := recover(); p != nil {
-			err = fmt.Errorf("%s panicked: %v\n%s", what, p, debug.Stack())
-		}
-	}()
-	return f()
+func guard(what string, f func() error) error {
+	var err error
+	abnormal, _, hung := watched(func() { err = f() })
+	if abnormal != "" {
+		return fmt.Errorf("%s: %s", what, abnormal)
+	}
+	if hung {
+		return fmt.Errorf("%s: did not return", what)
+	}
+	return err
 }
 
 func checkKap(c kapCase, r *h.Rec) error {
